@@ -100,6 +100,24 @@ Definition ex_ff_cfg : cfg :=
     (fun _ => 0%Q) (fun _ => []) (fun _ => []) (fun _ => []).
 Definition ex_ff_opts : opts := mkOpts 0%Z [] false true true 50 [].
 
+(* two tasks of 2 units, one worker each; the finish-to-start link 0 -> 1 is
+   declared in task 1's input list only (BaseTask(input_task_list=...)), task
+   0's output list is empty (C17, recorded finding; corpus/C17/onesided_link.json) *)
+Definition ex_one_cfg : cfg :=
+  mkCfg 2 2 0 0 1 0
+    (fun t => t) (fun _ => 2%Q)
+    (fun _ => 0%Q) (fun _ => 1%Q) (fun _ => false) (fun _ => false) (fun _ => None)
+    (fun t => match t with 1 => [(0, FS)] | _ => [] end) (fun _ => [])
+    (fun _ => [0]) (fun _ => []) (fun _ => None) (fun _ => None)
+    (fun _ => (-1)%Z) (fun _ => 0%Z) (fun _ => 0%Z) (fun _ => (-1)%Z)
+    (fun _ => 0) (fun w => [(w, 1%Q)]) (fun _ => [])
+    (fun _ => 1%Q) (fun _ => false)
+    (fun _ => []) (fun _ => None)
+    (fun g => match g with 0 => [0; 1] | _ => [] end)
+    (fun _ => 0) (fun _ => 0) (fun _ => []) (fun _ => 0%Q) (fun _ => false) (fun _ => [])
+    (fun _ => []) (fun _ => 0%Q) (fun _ => [])
+    (fun _ => 0%Q) (fun _ => []) (fun _ => []) (fun _ => []).
+
 (* the small project on which deleting the absence steps does NOT give the
    absence-free run under the FIFO rule (C10, recorded finding; the same case
    is corpus/C10/fifo_small.json): task 1 (1/2 unit) precedes task 0 (3 units),
